@@ -189,6 +189,9 @@ package dispatcher
 //@ func (*HTTPDeliverer).Deliver
 //@   requires d != nil && d.Client != nil
 //@   modifies *
+//@   loop 1 invariant [names_transferred] req != nil && req.Header != nil && (forall k string :: k in visited && len(delivery.Header[k]) > 0 ==> canon(k) in req.Header) && (forall h string :: h in req.Header ==> exists k string :: k in delivery.Header && canon(k) == h)
+//@   loop 2 invariant [inner_names] req != nil && req.Header != nil && (forall h string :: h in req.Header ==> exists k2 string :: k2 in delivery.Header && canon(k2) == h) && (forall k2 string :: pre(canon(k2) in req.Header) ==> canon(k2) in req.Header) && (rangeindex >= 0 ==> canon(k) in req.Header)
+//@   calls (*HTTPDeliverer).applyDeliverySigning requires [C07:request_headers_are_the_delivery_headers_by_name] arg1 == req && (forall k string :: k in delivery.Header && len(delivery.Header[k]) > 0 ==> canon(k) in req.Header) && (forall h string :: h in req.Header ==> exists k string :: k in delivery.Header && canon(k) == h)
 //@   calls net/http.NewRequestWithContext requires [C07:request_body_is_the_delivery_body] bodyOfReader == delivery.Body && arg2 == delivery.URL
 //@   calls net/http.(*Client).Do requires [C16:send_only_after_policy] req.URL == egressOKURL && egressOKURL != nil && egressOKURL == ext("net/url.Parse", delivery.URL)
 //@   calls net/http.(*Client).Do requires [C17:send_only_when_signed] signedReq == req
